@@ -396,7 +396,11 @@ int main(int argc, char **argv)
     RCP<const Basic> x = AT.x, y = AT.y;
     std::vector<std::pair<std::string, RCP<const Basic>>> leaves
         = {{"x", x},        {"y", y}, {"0", integer(0)}, {"1", integer(1)}, {"-1", integer(-1)}, {"2", integer(2)},
-           {"1/2", Rational::from_two_ints(1, 2)}, {"I", I}, {"pi", pi}};
+           {"1/2", Rational::from_two_ints(1, 2)}, {"I", I}, {"pi", pi},
+           // structured leaves: terms with a NEGATIVE coefficient and two-symbol sums/products, so that sums like -x - y (whose
+           // sign rules combine the coefficient sign with a non-strict key assumption) are reached within the quick depth
+           // (added after seeded change C34 -- NonPositiveVisitor in PositiveVisitor(Add) -- needed 3 operations from atoms)
+           {"-x", neg(x)}, {"-y", neg(y)}, {"x+y", add(x, y)}, {"x*y", mul(x, y)}, {"-2*x", mul(integer(-2), x)}};
     OpTable T;
     T.bin_names = {"add", "mul", "pow"};
     T.un_names = {"abs", "sign", "conjugate", "floor", "exp", "log", "sin", "sqrt"};
